@@ -90,6 +90,82 @@ fn af(s: &mut Src) -> AF {
     AF { kind, size: 1 + s.u8() as u16, shape: s.u8() }
 }
 
+/// bytes -> a valid scenario (the scenario-based properties C01 C03 C08 C09 C15 judge it with their own oracles)
+pub fn valid_case(d: &[u8]) -> crate::scenario::ValidCase {
+    use crate::scenario::*;
+    let mut s = Src::new(d);
+    let codec = s.u8() % 4;
+    let audio = [0u8, 1, 2, 5, 7, 7, 3, 1][(s.u8() % 8) as usize];
+    let title = s.opt(|s| {
+        let n = (s.u8() % 24) as usize;
+        String::from_utf8_lossy(&s.bytes(n)).to_string()
+    });
+    let ctime = s.opt(|s| s.u32() as u64 * 59);
+    let lang = s.opt(|s| (0..3).map(|_| (b'a' + s.u8() % 26) as char).collect::<String>());
+    let cfg = CfgGene {
+        codec,
+        audio,
+        rate_idx: s.u8() % 13,
+        channels: s.u8() % 8,
+        width: 16 + s.u16() % 4000,
+        height: 16 + s.u16() % 2100,
+        fast_start: s.bool(),
+        title,
+        ctime,
+        lang,
+        av1: None,
+        vp9: Vp9Key { profile: s.u8() % 4, byte4: s.u8(), sync: s.u8(), width: 1 + s.u16() as u32, height: 1 + s.u16() as u32, wlen: 1 + s.u8() % 5, hlen: 1 + s.u8() % 5, render: None, color: Some((s.u8(), None)), tail: 0 },
+    };
+    let v_start = match s.u8() % 5 {
+        0 | 1 => 0,
+        2 => s.u32() as u64,
+        3 => (1u64 << (32 + s.u8() % 13)) - s.u16() as u64,
+        _ => u32::from_be_bytes(*FOURCC_DICT[(s.u8() % 48) as usize]) as u64,
+    };
+    let a_off = match s.u8() % 4 {
+        0 => 0,
+        1 => s.u8() as u32,
+        _ => s.u16() as u32 * 7,
+    };
+    let reorder = s.bool();
+    let nv = (s.u8() % 20) as usize;
+    let na = (s.u8() % 20) as usize;
+    let size = |s: &mut Src| match s.u8() % 8 {
+        0 => [127u16, 128, 255, 256, 16_383, 16_384, 65_535, 4096][(s.u8() % 8) as usize],
+        1 => s.u16(),
+        _ => 1 + s.u8() as u16,
+    };
+    let delta = |s: &mut Src| match s.u8() % 8 {
+        0 => 3000u32,
+        1 => 3003,
+        2 => 1920,
+        3 => 0,
+        4 => 1,
+        5 => s.u32(),
+        _ => 1 + s.u16() as u32,
+    };
+    let mut video = Vec::new();
+    for _ in 0..nv {
+        if s.left() == 0 {
+            break;
+        }
+        let ddts = delta(&mut s).max(1);
+        let cts = if reorder { (s.u16() as i16 as i64) * [1, 1, 8, 3000][(s.u8() % 4) as usize] } else { 0 };
+        video.push(VGene { ddts, cts, key: s.u8() % 5 == 0, size: size(&mut s), shape: s.u8(), jit: (s.u8() % 99) as i8 - 49, big: 0 });
+    }
+    let mut audio_g = Vec::new();
+    for _ in 0..na {
+        if s.left() == 0 {
+            break;
+        }
+        audio_g.push(AGene { dpts: delta(&mut s), size: size(&mut s).min(8000), shape: s.u8(), jit: (s.u8() % 99) as i8 - 49 });
+    }
+    let fps_mode = if reorder { None } else { s.opt(|s| s.u8() % 12) };
+    let const_rate = s.opt(|s| [3000u32, 3003, 1500, 3750][(s.u8() % 4) as usize]);
+    let rejects = (0..s.u8() % 4).map(|_| (s.u8(), s.u8() % 5)).collect();
+    ValidCase { cfg, v_start, a_off, video, audio: audio_g, const_rate, fps_mode, use_dts: s.u8() % 3, order: s.u8() % 24, finish: s.u8() % 5, rejects, reorder, expand: None }
+}
+
 pub fn raw_case(d: &[u8]) -> RawCase {
     let mut s = Src::new(d);
     let codec = s.u8() % 4;
@@ -325,7 +401,7 @@ pub fn frag_raw(d: &[u8]) -> props::c12::FragRaw {
     props::c12::FragRaw { codec, width, height, timescale, frag_ms, sps, pps, vps, av1, vp9, via_builder, ops }
 }
 
-pub const TARGETS: &[&str] = &["c12_bytes", "c12_api", "c12_frag", "c04_history", "c07_av1", "c10_frag", "c14_annexb"];
+pub const TARGETS: &[&str] = &["c12_bytes", "c12_api", "c12_frag", "c04_history", "c07_av1", "c10_frag", "c14_annexb", "c01_scenario"];
 
 pub fn property_of(target: &str) -> &'static str {
     match target {
@@ -334,6 +410,7 @@ pub fn property_of(target: &str) -> &'static str {
         "c07_av1" => "C07",
         "c10_frag" => "C10",
         "c14_annexb" => "C14",
+        "c01_scenario" => "C01",
         _ => "",
     }
 }
@@ -353,6 +430,10 @@ pub fn evaluate(target: &str, d: &[u8]) -> Vec<(&'static str, Outcome)> {
         "c10_frag" => {
             let c = frag_case(d);
             vec![("C10", props::c10::eval(&c)), ("C11", props::c11::eval(&c)), ("C02", props::c02::eval_frag(&c))]
+        }
+        "c01_scenario" => {
+            let c = valid_case(d);
+            vec![("C01", props::c01::eval(&c)), ("C03", props::c03::eval(&c)), ("C09", props::c09::eval(&c)), ("C15", props::c15::eval(&c)), ("C08", props::c08::eval(&c))]
         }
         "c14_annexb" => {
             let mut o = Outcome::default();
